@@ -53,8 +53,13 @@ func vkDeletePartial(self *Fork) {}
 //verif:stub (*github.com/martian-lang/martian/martian/core.Metadata).Write
 func vkMetaWrite(self *Metadata, name MetadataFileName, object interface{}) error {
 	vkWrote = append(vkWrote, name)
+	if p, ok := object.(*PartialVdrKillReport); ok {
+		vkPartial = p // what getPartialKillReport reads back on the next pass
+	}
 	return nil
 }
+
+var vkPartial *PartialVdrKillReport
 
 //verif:stub (*github.com/martian-lang/martian/martian/core.PipestanceOverrides).GetForceVolatile
 func vkForce(self *PipestanceOverrides, node string, def bool) bool {
@@ -309,4 +314,113 @@ func H_C04_pathIsInside(n1, n2 int) {
 		want = true
 	}
 	verifAssert(pathIsInside(test, parent) == want || parent == "/", "C04/C14: pathIsInside is equality or ancestry on clean paths")
+}
+
+// H_C14_killTwice: two VDR passes over one strict-volatile fork, as
+// partialVdrKill makes them while consumers finish one after the other.  The
+// file cache holds a directory d, a file d/f inside it, a file g and a sibling
+// dx, each kept alive by an arbitrary subset of {a1, a2}.  Pass 1 runs while an
+// arbitrary subset of the arguments is still held; then an arbitrary subset of
+// those is released (their consumers completed) and pass 2 runs, final or not.
+//
+//	C14: the cumulative report counts every reclaimed path exactly once: its
+//	     byte total and file count equal the cached sizes / counts of the
+//	     entries nothing keeps alive any more, every reported path was removed,
+//	     and nothing still held was removed.
+func H_C14_killTwice(doneI int) {
+	disableUniquification = false
+	top := vsTop()
+	top.rt.Config.VdrMode = VdrStrict
+	top.rt.overrides = &PipestanceOverrides{}
+	_, f := vsStageNode(top, "PROD", false)
+	f.metadata.contents[CompleteFile] = struct{}{}
+	base := f.path + "/files"
+	ents := []*vkEntry{{path: base + "/d"}, {path: base + "/d/f"}, {path: base + "/g"}, {path: base + "/dx"}}
+	args := []string{"a1", "a2"}
+	holders := []*Node{{}, {}}
+	live := [2]bool{verifBool("a1.live"), verifBool("a2.live")}
+	f.fileArgs = map[string]map[Nodable]struct{}{}
+	f.filePostNodes = map[Nodable]map[string]syntax.Type{}
+	for i, a := range args {
+		if live[i] {
+			f.fileArgs[a] = map[Nodable]struct{}{holders[i]: {}}
+			f.filePostNodes[holders[i]] = map[string]syntax.Type{a: nil}
+		}
+	}
+	f.fileParamMap = map[string]*vdrFileCache{}
+	for _, e := range ents {
+		e.size = verifInt64("size")
+		verifAssume(verifAll(e.size >= 0, e.size <= vkBound))
+		c := verifInt("count")
+		verifAssume(verifAll(c >= 1, c <= 1000))
+		e.count = c
+		entry := &vdrFileCache{size: e.size, count: e.count}
+		for i, a := range args {
+			if verifBool("held." + a) {
+				e.held[i] = true
+				if entry.args == nil {
+					entry.args = map[string]struct{}{}
+				}
+				entry.args[a] = struct{}{}
+			}
+		}
+		f.fileParamMap[e.path] = entry
+	}
+	for i := range args {
+		verifAssume(verifImplies(ents[1].held[i], ents[0].held[i]))
+	}
+	vkPartial = nil
+	rep, final := f.vdrKillSome(nil, false)
+	verifCover("first pass ran")
+	firstRemoved := len(vkRemoved)
+	if !final {
+		// some consumers finish: removeFilePostNodes
+		var doneNodes []Nodable
+		for i := range args {
+			if live[i] && verifBool("released."+args[i]) {
+				live[i] = false
+				doneNodes = append(doneNodes, holders[i])
+			}
+		}
+		f.removeFilePostNodes(doneNodes)
+		verifCover("second pass ran")
+		rep, final = f.vdrKillSome(vkPartial, doneI != 0)
+	}
+	keep := func(e *vkEntry) bool {
+		return (e.held[0] && live[0]) || (e.held[1] && live[1])
+	}
+	removed := func(p string) bool {
+		for _, r := range vkRemoved {
+			if r == p {
+				return true
+			}
+		}
+		return false
+	}
+	var wantSize uint64
+	var wantCount uint
+	for i, e := range ents {
+		if removed(e.path) {
+			verifAssert(!keep(e), "C04: a file kept alive by a live argument is not removed")
+		}
+		if !keep(e) {
+			wantSize += uint64(e.size)
+			wantCount += uint(e.count)
+			gone := removed(e.path) || (i == 1 && removed(ents[0].path))
+			verifAssert(gone, "C14: a file nothing keeps alive is reclaimed")
+		}
+	}
+	if len(vkRemoved) > firstRemoved && firstRemoved > 0 {
+		verifCover("both passes removed something")
+	}
+	if rep != nil {
+		verifAssert(rep.Size == wantSize, "C14: over several passes the reported byte total equals what was removed (nothing is counted twice)")
+		verifAssert(rep.Count == wantCount, "C14: over several passes the reported file count equals what was removed (nothing is counted twice)")
+		for _, p := range rep.Paths {
+			verifAssert(removed(p), "C14: every reported path was removed")
+		}
+	} else {
+		verifAssert(wantCount == 0, "no report only when nothing was removed")
+	}
+	_ = final
 }
